@@ -17,7 +17,10 @@ MARKER = "change-prompt(%d> )"     # the number shows on the screen: what the te
 # that takes time is a CHILD of the shell fzf started (command list / loop / pipeline), except `execend`.
 FRAG = {"instant": ":", "mute": ":", "late": ":", "slow": "sleep 0.3; :",
         # `closed`: the OUTPUT ends (stdout and stderr closed: EOF on fzf's pipe) while the PROCESS goes on for ever
-        "closed": "exec >&- 2>&-; while :; do sleep 1; done",
+        # (the `sleep` children do not inherit the session lock: with the output closed, fzf's Wait returns as soon as the
+        # SHELL has been reaped, while a `sleep` killed by the same signal may take a moment to leave the process table; the
+        # next command would find the lock still held by a process that is already dying - seen on a loaded machine)
+        "closed": "exec >&- 2>&-; while :; do sleep 1 9>&-; done",
         "endless": "sleep 1000; echo \"$L|end\"", "pipe": "sleep 1000 | cat", "execend": "exec sleep 1000",
         "incr": "for j in 1 2 3; do sleep 0.12; echo \"$L|$i\"; i=$((i+1)); done",
         "incrlong": "for j in 1 2; do sleep 0.15; echo \"$L|$i\"; i=$((i+1)); done; sleep 1000; :",
